@@ -630,6 +630,10 @@ class EngineA:
             return True
         res.bump("steps")
         res.bump("op:" + op)
+        if isinstance(status, Violation) and self.prop == "C19" and status.prop != "C19":
+            # a C04-class discrepancy seen while hunting C19: not this check's business (C04 reports it)
+            res.bump("probe:c04_discrepancy_in_c19_history")
+            return False
         if isinstance(status, Violation):
             res.violation = status
             res.events.append([i, op, "violation", status.oracle])
@@ -637,6 +641,9 @@ class EngineA:
         if status == "end":
             return False
         v = self._check_state(w, i, op)
+        if v is not None and self.prop == "C19":
+            res.bump("probe:c04_discrepancy_in_c19_history")
+            return False
         if v is not None:
             res.violation = v
             res.events.append([i, op, "violation", v.oracle])
